@@ -2,6 +2,7 @@ package main
 
 import (
 	"fmt"
+	"go/token"
 	"sort"
 	"strings"
 
@@ -597,5 +598,134 @@ func lexRulesLayout(c *Ctx) {
 			ok = true
 		}
 	}
+	lexCommentExtent(c, commentV)
 	r.Ob("LEX-LAYOUT", "(*parser).Lex skips COMMENT items", t.Pos(lex.Pos()), ok, "the token loop in parser.Lex must continue exactly while the item type is COMMENT")
+}
+
+// lexCommentExtent: a COMMENT item ends before the first line terminator after its marker (or at the end of the
+// input) — otherwise inserting a comment removes the text that follows it from the token stream. Two idioms are
+// recognised in the state that emits COMMENT: (A) a next() loop every exit of which is `isEOL(r)` or `r == eof`,
+// followed by backup(); (B) position arithmetic with the result n of a strings.Index* search for the line
+// terminators in the rest of the input: `pos += n` only under n ≥ 0 and `pos = len(input)` only under n < 0.
+func lexCommentExtent(c *Ctx, commentV int64) {
+	r, t := c.R, c.T
+	n := 0
+	for _, f := range t.PkgFuncs(pParser) {
+		var emitC *ssa.Call
+		allInstrs(f, func(in ssa.Instruction) {
+			if isCallTo(in, pParser, "Lexer.emit") {
+				call := in.(*ssa.Call)
+				if v, ok := constInt(call.Call.Args[1]); ok && v == commentV {
+					emitC = call
+				}
+			}
+		})
+		if emitC == nil {
+			continue
+		}
+		n++
+		who := relName(f)
+		loops := naturalLoops(f)
+		okA := false
+		detail := ""
+		if len(loops) == 1 {
+			l := loops[0]
+			okExits, exits := true, 0
+			for b := range l.Blocks {
+				for si, sc := range b.Succs {
+					if l.Blocks[sc] {
+						continue
+					}
+					exits++
+					iff, isIf := b.Instrs[len(b.Instrs)-1].(*ssa.If)
+					if !isIf {
+						okExits = false
+						continue
+					}
+					good := false
+					switch cd := iff.Cond.(type) {
+					case *ssa.Call:
+						if cd.Call.StaticCallee() != nil && cd.Call.StaticCallee().Name() == "isEOL" && si == 0 {
+							good = true
+						}
+					case *ssa.BinOp:
+						if k, isC := constInt(cd.Y); isC && k == -1 && ((cd.Op == token.EQL && si == 0) || (cd.Op == token.NEQ && si == 1)) {
+							good = true
+						}
+					}
+					if !good {
+						okExits = false
+					}
+				}
+			}
+			backs := false
+			allInstrs(f, func(in ssa.Instruction) {
+				if isCallTo(in, pParser, "Lexer.backup") && !l.Blocks[in.Block()] && precedes(in, emitC) {
+					backs = true
+				}
+			})
+			okA = okExits && exits > 0 && backs
+			detail = fmt.Sprintf("idiom A: %d loop exits, all on isEOL(r) / r == eof: %v, backup() before emit: %v", exits, okExits, backs)
+		}
+		okB := false
+		if !okA {
+			// idiom B
+			var idx ssa.Value
+			allInstrs(f, func(in ssa.Instruction) {
+				call, ok := in.(*ssa.Call)
+				if !ok || call.Call.StaticCallee() == nil || call.Call.StaticCallee().Pkg == nil || call.Call.StaticCallee().Pkg.Pkg.Path() != "strings" || !strings.HasPrefix(call.Call.StaticCallee().Name(), "Index") {
+					return
+				}
+				if len(call.Call.Args) == 2 {
+					if cst, ok := call.Call.Args[1].(*ssa.Const); ok && cst.Value != nil && strings.Contains(cst.Value.ExactString(), `\n`) {
+						idx = call
+					}
+				}
+			})
+			if idx != nil {
+				okStores, stores := true, 0
+				factOn := func(b *ssa.BasicBlock, wantFound bool) bool {
+					return hasFact(b, func(cond ssa.Value, pol bool) bool {
+						bo, ok := cond.(*ssa.BinOp)
+						if !ok || bo.X != idx {
+							return false
+						}
+						k, isC := constInt(bo.Y)
+						if !isC {
+							return false
+						}
+						// found: n >= 0, n > -1, n != -1 ; not found: n < 0, n == -1, n <= -1
+						found := (bo.Op == token.GEQ && k == 0) || (bo.Op == token.GTR && k == -1) || (bo.Op == token.NEQ && k == -1)
+						notFound := (bo.Op == token.LSS && k == 0) || (bo.Op == token.EQL && k == -1) || (bo.Op == token.LEQ && k == -1)
+						if wantFound {
+							return (found && pol) || (notFound && !pol)
+						}
+						return (notFound && pol) || (found && !pol)
+					})
+				}
+				allInstrs(f, func(in ssa.Instruction) {
+					st, ok := in.(*ssa.Store)
+					if !ok || !strings.HasSuffix(path(st.Addr), ".pos") {
+						return
+					}
+					stores++
+					vp := path(st.Val)
+					switch {
+					case strings.Contains(vp, "Index"):
+						if !factOn(st.Block(), true) {
+							okStores = false
+						}
+					case strings.Contains(vp, "len("):
+						if strings.Contains(vp, ".input") && !factOn(st.Block(), false) {
+							okStores = false
+						}
+					}
+				})
+				okB = okStores && stores >= 2
+				detail += fmt.Sprintf("; idiom B: %d position stores, each under the matching found / not-found fact of the terminator search: %v", stores, okStores)
+			}
+		}
+		r.Ob("LEX-LAYOUT", who+" ends a COMMENT item before the next line terminator", t.Pos(emitC.Pos()), okA || okB, detail)
+	}
+	r.FloorN("states that emit COMMENT", n, 1)
 }
